@@ -559,6 +559,10 @@ def g_titled(s, kws, ctx, dialect, has_tags=True, p_desc=0.4):
             t["desc"].insert(s.int(len(t["desc"]) + 1), dict(t["desc"][s.int(len(t["desc"]))]))
             if s.int(2):
                 t["desc"].append(dict(t["desc"][0]))
+    if s.int(12) == 0:
+        # the name begins with a colon glued to the keyword's own colon
+        t["sep"] = ""
+        t["name"] = s.choice([":", "::", ":x", ":memory: store", ": :"]) + t["name"]
     if s.int(8) == 0:
         # the name mentions its own keyword (and colon) again
         t["name"] = t["name"] + t["kw"] + ":" + s.choice(["", " "]) + t["kw"] + g_text(s)
